@@ -31,7 +31,7 @@ class Maker:
         return WorkerAdapter(self.c)
 
 
-ALLK = ['ok', 'raise', 'baseexc', 'unpicklable', 'memover']
+ALLK = ['ok', 'raise', 'raise_deep', 'baseexc', 'unpicklable', 'memover']
 UNS = ['unpicklable', 'unpicklable_deep', 'unpicklable_badrepr']
 
 FORMULAS = {
@@ -43,11 +43,12 @@ FORMULAS = {
     'C09': (['QuotaRespected', 'QuotaExitStatus', 'RecycleOnlyWhenDue', 'CountsExecutedOnly'],
             ['ExitAfterConsumed']),
     'C12': (['StreamShape', 'OneResultPerJob'], ['EncodingErrorReported']),
+    'C02': (['StreamShape', 'OneResultPerJob', 'ResultOnlyAfterAccept'], []),
 }
 
 SCEN = {
     'C03': dict(
-        quick=dict(small=[cfg(Kinds=['ok', 'raise', 'baseexc', 'unpicklable']),
+        quick=dict(small=[cfg(Kinds=['ok', 'raise', 'raise_deep', 'baseexc', 'unpicklable']),
                           cfg(Quota=1, Synack=True, Cancels=True, Kinds=['ok']),
                           cfg(NJobs=3, Synack=True, Refusals=True, Kinds=['ok']),
                           cfg(NJobs=2, Synack=False, Refusals=True, Kinds=['ok'])],
@@ -59,6 +60,11 @@ SCEN = {
                              cfg(NJobs=2, Quota=1, Synack=True, Cancels=True, Kinds=ALLK)],
                       walks=cfg(NJobs=4, Quota=3, Synack=True, Cancels=True, Kinds=ALLK,
                                 Signals=True))),
+    'C02': dict(
+        quick=dict(small=[cfg(Kinds=['ok', 'raise', 'raise_deep'])],
+                   walks=cfg(NJobs=3, Kinds=['ok', 'raise', 'raise_deep', 'baseexc'])),
+        thorough=dict(small=[cfg(NJobs=3, Kinds=['ok', 'raise', 'raise_deep'])],
+                      walks=cfg(NJobs=4, Quota=3, Kinds=['ok', 'raise', 'raise_deep', 'baseexc']))),
     'C08': dict(
         quick=dict(small=[cfg(Kinds=['ok'], Signals=True),
                           cfg(Quota=1, Synack=True, Kinds=['ok'], Signals=True)],
@@ -77,7 +83,7 @@ SCEN = {
                              cfg(NJobs=3, Quota=1, Synack=True, Kinds=['ok'])],
                       walks=cfg(NJobs=5, Quota=3, Kinds=ALLK, Signals=True, Synack=True))),
     'C12': dict(
-        quick=dict(small=[cfg(Kinds=['ok'] + UNS)],
+        quick=dict(small=[cfg(Kinds=['ok', 'raise_deep'] + UNS)],
                    walks=cfg(NJobs=3, Quota=2, Kinds=ALLK + UNS[1:])),
         thorough=dict(small=[cfg(NJobs=3, Quota=2, Kinds=['ok', 'raise'] + UNS)],
                       walks=cfg(NJobs=4, Quota=3, Kinds=ALLK + UNS[1:], Synack=True))),
